@@ -75,6 +75,19 @@ class C06(Check):
                                    progress=bool(k % 3 == 0), placement=["single", "block", "round-robin"][k % 3 if size >= 4 else 0],
                                    schedules=10 if q else 24)
 
+        # the task iterator called directly, with and without "root's node only", on every placement (own case
+        # numbers: the cases above keep theirs)
+        k = 10 ** 6
+        for rep in range(1 if q else 12):
+            for size in (2, 3, 4, 5, 8):
+                for placement in (["single"] if size < 4 else ["single", "block", "round-robin"]):
+                    for node_only in (False, True):
+                        k += 1
+                        mws = [None, 2, size, size + 1, 3]
+                        yield dict(driver="tasks", size=size, variant="-", seed=seed * 100003 + k, max_workers=mws[k % len(mws)],
+                                   n=[7, 12, 40][k % 3], chunk=16, progress=False, placement=placement, node_only=node_only,
+                                   schedules=6 if q else 16)
+
     # ------------------------------------------------------------------
     def setup_worker(self):
         warnings.simplefilter("ignore")
@@ -187,6 +200,8 @@ class C06(Check):
             nodes = ["AB"[r % 2] for r in range(size)]
         else:
             nodes = None
+        if driver == "tasks":
+            params["node_only"] = bool(case.get("node_only"))
         if driver == "create":
             params["source"], params["mode"] = case["variant"].split("/")
             if params["source"] == "random" or params["mode"] == "generate":
